@@ -688,8 +688,62 @@ Definition copyin_ok (sc : scase) (m : bmsg) : bool :=
   | _ => true
   end.
 
+(* The same per-turn rules as [copy_turn_ok]/[copy_turns_ok], written as ONE left-to-right scan of the
+   log next to the client's frames (the k-th Consume marker opens the turn of the k-th frame):
+   per turn at most one ErrorResponse, nothing after a ReadyForQuery, a payload handed to the
+   handler is the payload of this turn's CopyData message (at most one per turn — so payloads
+   arrive in order, each once), and the first result a handler sees in the turn of a CopyFail is
+   neither success nor end-of-stream.  Turns beyond the client's frames and the startup turn are
+   not judged. *)
+Record cmon := { m_rem : list frame; m_cur : option frame; m_live : bool;
+                 m_err : bool; m_rdy : bool; m_data : bool; m_op : bool; m_ok : bool }.
+Definition mon_init (fs : list frame) : cmon :=
+  {| m_rem := fs; m_cur := None; m_live := false; m_err := false; m_rdy := false; m_data := false; m_op := false; m_ok := true |}.
+Definition mon_fail (m : cmon) : cmon :=
+  {| m_rem := m_rem m; m_cur := m_cur m; m_live := m_live m; m_err := m_err m; m_rdy := m_rdy m; m_data := m_data m; m_op := m_op m; m_ok := false |}.
+
+Definition mon_step (m : cmon) (e : ev) : cmon :=
+  if negb (m_ok m) then m else
+  match e with
+  | Consume =>
+      match m_rem m with
+      | f :: r => {| m_rem := r; m_cur := Some f; m_live := true; m_err := false; m_rdy := false; m_data := false; m_op := false; m_ok := true |}
+      | [] => {| m_rem := []; m_cur := None; m_live := false; m_err := false; m_rdy := false; m_data := false; m_op := false; m_ok := true |}
+      end
+  | Out b =>
+      if negb (m_live m) then m
+      else if m_rdy m then mon_fail m
+      else if is_error b then
+        (if m_err m then mon_fail m
+         else {| m_rem := m_rem m; m_cur := m_cur m; m_live := true; m_err := true; m_rdy := false; m_data := m_data m; m_op := m_op m; m_ok := true |})
+      else if is_ready b then
+        {| m_rem := m_rem m; m_cur := m_cur m; m_live := true; m_err := m_err m; m_rdy := true; m_data := m_data m; m_op := m_op m; m_ok := true |}
+      else m
+  | CbOp r =>
+      if negb (m_live m) then m
+      else
+        let fail_first :=
+          negb (m_op m) &&
+          (match m_cur m with Some (FMsg t _) => Byte.eqb t x66 | _ => false end) &&
+          (match r with OEof | OData _ => true | _ => false end) in
+        let bad_data :=
+          match r, m_cur m with
+          | OData b, Some (FMsg t body) => negb (Byte.eqb t x64 && bytes_eqb b body && negb (m_data m))
+          | _, _ => false
+          end in
+        if fail_first || bad_data then mon_fail m
+        else {| m_rem := m_rem m; m_cur := m_cur m; m_live := true; m_err := m_err m; m_rdy := m_rdy m;
+                m_data := m_data m || (match r with OData _ => true | _ => false end); m_op := true; m_ok := true |}
+  | _ => m
+  end.
+
+Definition copy_mon (fs : list frame) (log : list ev) : cmon := fold_left mon_step log (mon_init fs).
+
 Definition oracle_C13 (sc : scase) (log : list ev) : bool :=
-  no_crash log && forallb (copyin_ok sc) (outs log) &&
+  no_crash log && forallb (copyin_ok sc) (outs log) && m_ok (copy_mon (client_frames sc) log).
+
+(* the original per-turn formulation, kept for reference and evaluated next to the scan *)
+Definition oracle_C13_turns (sc : scase) (log : list ev) : bool :=
   match turns log with
   | _ :: ts =>
       copy_turns_ok (client_frames sc) ts &&
@@ -698,6 +752,42 @@ Definition oracle_C13 (sc : scase) (log : list ev) : bool :=
                          (client_frames sc))
   | [] => true
   end.
+
+(* Two further rules of the property, as a second scan (evaluated on every log next to [copy_mon];
+   not part of [oracle_C13_model]):
+   (A) end-of-stream is what CopyDone means: the first result a handler sees in the turn of a message
+       other than CopyDone, Flush and Sync is not io.EOF (a Terminate, a Query, ... inside a COPY is an error);
+   (B) between a CopyInResponse and the next message the server writes, the turn of a message exceeding
+       the size limit is never silent: the handler's Read reports it (or the command loop answers it). *)
+Record cmon2 := { n_rem : list frame; n_cur : option frame; n_live : bool; n_op : bool;
+                  n_copy : bool; n_silent : bool; n_ok : bool }.
+Definition eof_exempt (c : option frame) : bool :=
+  match c with
+  | Some (FMsg t _) => Byte.eqb t x63 || Byte.eqb t x48 || Byte.eqb t x53
+  | _ => true
+  end.
+Definition is_over (c : option frame) : bool :=
+  match c with Some (FOver _ _ None) | Some (FBad _ _) => true | _ => false end.
+Definition mon2_step (m : cmon2) (e : ev) : cmon2 :=
+  if negb (n_ok m) then m else
+  match e with
+  | Consume =>
+      let ok := negb (n_live m && n_copy m && n_silent m && is_over (n_cur m)) in
+      match n_rem m with
+      | f :: r => {| n_rem := r; n_cur := Some f; n_live := true; n_op := false; n_copy := n_copy m; n_silent := true; n_ok := ok |}
+      | [] => {| n_rem := []; n_cur := None; n_live := false; n_op := false; n_copy := n_copy m; n_silent := true; n_ok := ok |}
+      end
+  | Out b =>
+      {| n_rem := n_rem m; n_cur := n_cur m; n_live := n_live m; n_op := n_op m;
+         n_copy := match b with BCopyIn _ _ => true | _ => false end; n_silent := false; n_ok := true |}
+  | CbOp r =>
+      let bad := n_live m && negb (n_op m) && negb (eof_exempt (n_cur m)) && (match r with OEof => true | _ => false end) in
+      {| n_rem := n_rem m; n_cur := n_cur m; n_live := n_live m; n_op := true; n_copy := n_copy m; n_silent := false; n_ok := negb bad |}
+  | _ => m
+  end.
+Definition oracle_C13_strict (sc : scase) (log : list ev) : bool :=
+  n_ok (fold_left mon2_step log
+          {| n_rem := client_frames sc; n_cur := None; n_live := false; n_op := false; n_copy := false; n_silent := true; n_ok := true |}).
 
 (* ---------- C19: session lifecycle ---------- *)
 Fixpoint mw_seq (l : list ev) (i : Z) : bool :=
